@@ -87,6 +87,9 @@ type Env struct {
 	// DstFault is armed on the destination file of the next CopyTo.
 	DstFault     *vfile.Fault
 	LastDstCalls int
+	// LastCopyDst is the destination file of the last successful CopyTo.
+	LastCopyDst        *vfile.File
+	LastCopyFlushEvery int
 	// OpenedDespiteFault is the store NewStore returned although the file failed during the open.
 	OpenedDespiteFault *gkvlite.Store
 	// Stale holds the handles (snapshot collections) whose version has been
@@ -326,7 +329,11 @@ func (e *Env) callbacks() gkvlite.StoreCallbacks {
 func (e *Env) open() {
 	var s *gkvlite.Store
 	var err error
-	e.guard("NewStore", func() {
+	run := e.guard
+	if e.Cfg.ScanBound && !e.Cfg.MemOnly {
+		run = e.boundedScan
+	}
+	run("NewStore", func() {
 		if e.Cfg.MemOnly {
 			s, err = gkvlite.NewStoreEx(nil, e.callbacks())
 		} else {
@@ -768,7 +775,7 @@ func OpenCopyAndCompare(e *Env, b []byte, st *model.State, label string) {
 	if len(e.M.Flushes) == 0 && len(st.Colls) == 0 {
 		fl = nil // nothing was ever flushed
 	}
-	e2 := &Env{Cfg: Config{CB: e.Cfg.CB &^ (CBRef | CBAlloc)}, Name: "reopen-copy", F: f2, Cmps: e.Cmps, M: &model.Store{Live: st.Clone(), Flushes: fl},
+	e2 := &Env{Cfg: Config{CB: e.Cfg.CB &^ (CBRef | CBAlloc), ScanBound: e.Cfg.ScanBound}, Name: "reopen-copy", F: f2, Cmps: e.Cmps, M: &model.Store{Live: st.Clone(), Flushes: fl},
 		Stats: map[string]int64{}, H: map[string]*gkvlite.Collection{}}
 	e2.open()
 	if e2.NoRootsStop {
@@ -850,4 +857,19 @@ func (e *Env) RetryOpen() {
 	if e.S == nil && !e.Failed() {
 		e.open()
 	}
+}
+
+// NewEnvOnImage opens a store on a copy of img; st is the state the image
+// must show (anyFlush=false: no flush ever completed).
+func NewEnvOnImage(name string, cfg Config, cmps map[string]model.Cmp, img []byte, st *model.State, anyFlush bool) *Env {
+	e := &Env{Cfg: cfg, Name: name, H: map[string]*gkvlite.Collection{}, Stats: map[string]int64{}, Cmps: cmps}
+	e.M = &model.Store{Live: st.Clone()}
+	if anyFlush {
+		e.M.Flushes = []model.Flushed{{State: st.Clone(), FileLen: int64(len(img))}}
+	}
+	e.F = vfile.FromBytes(name, img)
+	e.F.OpenTag = "Open"
+	e.F.KeepLog = cfg.KeepLog
+	e.open()
+	return e
 }
